@@ -78,6 +78,24 @@ void note_fail(const Case &c, const Result &r) {
     last_fail = c; last_fail_msg = r.msg; have_fail = true;
 }
 
+// Cases normally run in a served batch (several cases per child).  The first failure seen
+// there is re-run in a fresh process: if it fails again the driver switches to a fresh
+// process for every further evaluation (so shrinking only ever sees clean-state verdicts);
+// if it passes, the failure was caused by state left behind by an earlier case of the batch
+// (counted as batch_only_failures, reported as FLAKY, never as a violation).
+uint64_t batch_only_failures = 0; std::string batch_only_msg;
+Result run_checked(const Case &c) {
+    Result r = rt::run_forked(c);
+    if (r.failed() && rt::g_batch > 1) {
+        Result r2 = rt::run_fresh(c);
+        if (r2.failed()) { rt::g_batch = 1; return r2; }
+        batch_only_failures++;
+        if (batch_only_msg.empty()) batch_only_msg = r.msg;
+        return r2;
+    }
+    return r;
+}
+
 rc::Gen<uint8_t> byteGen() {
     return rc::gen::map(rc::gen::resize(100, rc::gen::inRange<int>(0, 256)), [](int v) { return (uint8_t)v; });
 }
@@ -97,7 +115,7 @@ bool zero_run(const std::vector<uint8_t> &prog, const std::vector<uint8_t> &faul
     uint64_t h = rt::case_hash(c);
     auto it = zero_run_cache.find(h);
     if (it != zero_run_cache.end() && !out) { N = it->second; return true; }
-    Result r = rt::run_forked(c);
+    Result r = run_checked(c);
     agg.add(c, r);
     if (out) *out = r;
     if (oc) *oc = c;
@@ -136,7 +154,7 @@ void rc_case_body(bool uses_schedule, unsigned maxlen) {
                 rc::gen::weightedElement<uint8_t>({{(size_t)(100 - p) * 3, 0}, {(size_t)p, 1}, {(size_t)p, 2}, {(size_t)p, 3}}));
         }
     }
-    Result r = rt::run_forked(c);
+    Result r = run_checked(c);
     agg.add(c, r);
     if (r.failed()) { note_fail(c, r); RC_FAIL(r.msg); }
 }
@@ -152,7 +170,7 @@ void sweep_case_body(unsigned maxlen, int pairs) {
     for (uint32_t i = 0; i < lim; i++) {
         for (int a = 1; a < std::max<int>(alts[i], 2); a++) {
             Case c; c.prog = prog; c.sched.assign(i + 1, 0); c.sched[i] = (uint8_t)a;
-            Result r = rt::run_forked(c);
+            Result r = run_checked(c);
             agg.add(c, r);
             if (r.failed()) { note_fail(c, r); RC_FAIL(r.msg); }
         }
@@ -166,7 +184,7 @@ void sweep_case_body(unsigned maxlen, int pairs) {
         Case c; c.prog = prog; c.sched.assign(span, 0);
         c.sched[(uint64_t)f1 * span / 65536] = (uint8_t)v1;
         c.sched[(uint64_t)f2 * span / 65536] = (uint8_t)v2;
-        Result r = rt::run_forked(c);
+        Result r = run_checked(c);
         agg.add(c, r);
         if (r.failed()) { note_fail(c, r); RC_FAIL(r.msg); }
     }
@@ -359,6 +377,11 @@ int main(int argc, char **argv) {
                 Failure f; f.path = ""; f.msg = "rapidcheck reported failure without a failing case (generator problem)"; f.code = -1; f.flaky = true;
                 agg.failures.push_back(f);
             }
+        }
+        if (batch_only_failures) {
+            Failure f; f.path = ""; f.code = -3; f.flaky = true;
+            f.msg = std::to_string(batch_only_failures) + " failure(s) occurred only when several cases shared one process and not in a fresh process (state carried over between cases): " + batch_only_msg;
+            agg.failures.push_back(f);
         }
         write_stats(mode.c_str(), now_s() - t0, seed);
         printf("%s %s seed=%ld evaluations=%llu nontrivial=%llu distinct=%zu inconclusive=%llu failures=%zu wall=%.1fs\n",
